@@ -14,6 +14,20 @@
 // region. Read points: before SaveAccount, after SaveAccount, after Commit, after reloading
 // the account. Oracle: RetrieveValue(fresh copy of key) == private copy of the value bytes
 // taken just before SaveKeyValue was called (empty after a delete / if never written).
+//
+// Differences from DESIGN.md §3.2: the design's capacity alphabet {len, len+8} can never alias
+// (append needs len(key)+32 resp. 32 spare bytes), so capacities are chosen relative to what
+// append needs; sequences are <=2 writes over the full alphabet plus 3 (quick: small
+// alphabet, thorough: mid alphabet) and 4 writes (thorough, small alphabet).
+//
+// C08 is VIOLATED on the unchanged tree, as the design expects: SaveKeyValue does
+// append(key, identifier...) / append(value, ...), so (a) a key with spare capacity gets the
+// address written behind it, destroying a value that lies there (read back wrong at once),
+// (b) the stored bytes are a slice of the caller's value buffer: a later write into that
+// buffer changes what is read before save, after save and after commit (the trie leaf keeps
+// the alias). Fix: /verif/fixes/C08.diff (copy into a private slice).
+// Side observation (counted in the evidence, not judged): RetrieveValue of a key whose
+// pending, not yet saved write is a delete returns (nil, ErrNegativeValue).
 package main
 
 import (
